@@ -571,7 +571,7 @@ def meta(ctx):
 
 def run(ctx):
     meta(ctx)
-    coq.prove(ctx, "C02", extra_files=["Mcount/Check"])
+    coq.prove(ctx, "C02", extra_files=["Mcount/Check", "Mcount/Table"])
     objdir = build.get_build("plain", ctx.log)
     inproc(ctx)
     known_depth_overflow(ctx)
@@ -581,7 +581,7 @@ def run(ctx):
 
 def replay(ctx, obj):
     meta(ctx)
-    coq.prove(ctx, "C02", extra_files=["Mcount/Check"])
+    coq.prove(ctx, "C02", extra_files=["Mcount/Check", "Mcount/Table"])
     if obj.get("mode") == "e2e" or "events" not in obj:
         ctx.log("replay: re-running the whole check for this kind of case")
         return run(ctx)
